@@ -145,7 +145,42 @@ def register(R):
     s.ensures("price_lands_on_named_station_and_plugs_only", usp_post, ("C11",))
     s.ensures("keeps_state_well_formed", lambda a, r: wf(r), ("C11", "C08"))
     s.no_raise(P)
+    _add_row(R)
     _late(R)
+
+
+def _add_row(R):
+    """_add_row_to_this_update: latest-row-wins accumulation of one price row into {station|region -> {plug -> price}}:
+    exactly the (key, plug) entry named by the row is set to the row's price, every other entry is kept; a row that
+    cannot be used (no price / plug / key, unparsable price) leaves the accumulator unchanged and never raises."""
+    PR = MapTy(StrT, RealT)
+    ACC = MapTy(StrT, PR)
+    ROW = MapTy(StrT, StrT)
+    k = UPD + "charging_price_update.py::_add_row_to_this_update"
+    s = R.spec(k, arg_types={"acc": ACC, "row": ROW}, ret=ACC)
+    s.opaque = True
+
+    def post(a, r):
+        row, acc = a.row, a.acc
+        lit = lambda x: lift(x)
+        has_sid, has_gid = row.has(lit("station_id")), row.has(lit("geoid"))
+        key = Ite(has_sid, row.get(lit("station_id")).val(), row.get(lit("geoid")).val())
+        plug = row.get(lit("charger_id")).val()
+        price_txt = row.get(lit("price_kwh")).val()
+        usable = And(row.has(lit("price_kwh")), row.has(lit("charger_id")), Or(has_sid, has_gid))
+        o, c = bound(StrT, "o_ar"), bound(StrT, "c_ar")
+        old_entry = acc.get(key)
+        new_entry = r.get(key)
+        changed = And(
+            forall([o], Implies(o != key, r.get(o) == acc.get(o))),
+            new_entry.is_some(),
+            new_entry.val().has(plug),
+            forall([c], Implies(c != plug, new_entry.val().get(c) == Ite(old_entry.is_some(), old_entry.val().get(c), Sym(OptTy(RealT), OptTy(RealT).none())))))
+        return And(Implies(Not(usable), r == acc), Implies(usable, Or(r == acc, changed)),
+                   # the unchanged outcome of a usable row is only the unparsable price
+                   Implies(And(usable, uf("float_parses")(price_txt)), And(changed, new_entry.val().get(plug).val() == uf("float_of_str")(price_txt))))
+    s.ensures("latest_row_wins_on_exactly_its_entry", post, ("C11",))
+    s.no_raise(("C11",))
 
 
 def _keys_of(xs):
